@@ -214,6 +214,8 @@ def run(ck):
     from rules.rfs import time_base_agreement
     time_base_agreement(ck, S, "C06-O8")
     frontends_keep_count(ck, "C06-O9")
+    from rules.c19 import share_ini_obligation
+    share_ini_obligation(ck, "C06-O9", "ini|arg|RotatingFileSink", "configure(settings): max_file_count is handed to RotatingFileSink as read")
 
 
 def frontends_keep_count(ck, rid):
